@@ -4,6 +4,7 @@ A *case* is a JSON-able recipe at the level of the public operators:
 
   {"vars": [[lb, ub], ...],              variable i is named "x<i>"
    "cons": [recipe, ...],                see `build_con`
+   "hidden": [i, ...] (optional)          variables declared without a name (`_v<i>`, hidden from results)
    "hints": {"x0": 1, ...} | None,
    "limit": 1 | 3 | 100,
    "solver": "auto" | "dfs" | "sat"}
@@ -70,7 +71,8 @@ def build_model(case):
     """Returns (Model, [IntVar], [built constraint tuples])."""
     from solvor.cp import Model
     m = Model()
-    xs = [m.int_var(lb, ub, f"x{i}") for i, (lb, ub) in enumerate(case["vars"])]
+    hidden = set(case.get("hidden") or [])
+    xs = [m.int_var(lb, ub) if i in hidden else m.int_var(lb, ub, f"x{i}") for i, (lb, ub) in enumerate(case["vars"])]
     built = []
     for c in case["cons"]:
         t = build_con(m, c, xs)
@@ -229,11 +231,14 @@ def impl(case):
         enc_mod.solve_sat = real
     out = dict(cap)
 
+    hidden = set(case.get("hidden") or [])
+
     def canon(sol):
         if not isinstance(sol, dict):
             return None
-        extra = [k for k in sol if k not in names]
-        return [sol.get(n) for n in names] + ([None] if extra else [])
+        # unknown keys, and hidden variables showing up, make the assignment malformed (extra entry)
+        extra = [k for k in sol if k not in names or k.startswith("_")]
+        return [None if i in hidden else sol.get(n) for i, n in enumerate(names)] + ([None] if extra else [])
 
     if r.solutions is not None:
         sols = [canon(s) for s in r.solutions]
@@ -252,9 +257,11 @@ def impl(case):
 def hint_pairs(case):
     h = case.get("hints") or {}
     n = len(case["vars"])
+    hidden = set(case.get("hidden") or [])
     out = []
     for name, val in h.items():
-        if name.startswith("x") and name[1:].isdigit() and int(name[1:]) < n and isinstance(val, int):
+        if (name.startswith("x") and name[1:].isdigit() and int(name[1:]) < n and int(name[1:]) not in hidden
+                and isinstance(val, int)):
             out.append([int(name[1:]), val])
     return out
 
@@ -270,7 +277,8 @@ def to_request(case, pcons, out, mode):
             litmap.append([[v, b + v - lb] for v in range(lb, ub + 1)])
             b += max(0, ub - lb + 1)
     return ["case", [list(v) for v in case["vars"]], pcons, hint_pairs(case), int(case["limit"]), sols,
-            o.get("cnf"), o.get("assumptions") or [], o.get("sat_models") or [], litmap, mode]
+            o.get("cnf"), o.get("assumptions") or [], o.get("sat_models") or [], litmap, mode,
+            sorted(case.get("hidden") or [])]
 
 
 def normalise_cnf(cnf):
@@ -343,7 +351,7 @@ def has_var(e):
 
 def _buildable(vars_, c):
     try:
-        pc = proto_model({"vars": vars_, "cons": [c]})
+        pc = proto_model({"vars": vars_, "cons": [c], "hidden": []})
         return pc[0]
     except (TypeError, NotProto):
         return None
@@ -471,6 +479,13 @@ def gen_model(rng, weights, big=False):
         else:
             cons.append(gen_global(rng, vars_, plant, k, big))
     return vars_, cons, plant
+
+
+def gen_hidden(rng, vars_):
+    """Mostly none; sometimes a few variables are declared without a name."""
+    if rng.random() < 0.88:
+        return []
+    return [i for i in range(len(vars_)) if rng.random() < 0.45]
 
 
 def gen_hints(rng, vars_, plant):
